@@ -31,7 +31,8 @@
    InitA/TxAdd are the configured target, and the initiator passes the connection filter; the
    remote address reported is InitA/TxAdd. The advertising type in effect is the type of the last
    advertising PDU handed to the radio; between change_advertising<>() and the next PDU the types
-   proposed since are admitted as well.  Clause tag: accept_iff.  The static predicates
+   proposed since are admitted as well.  Clause tag: accept_iff; a received PDU on which an assert
+   of the code fails: fault.  The static predicates
    is_valid_connect_request / is_valid_scan_request are compared with their specification
    (tag static_iff). *)
 From BT Require Import Base.ListX Adv.AdvModel.
@@ -217,11 +218,12 @@ Record mon25 := mkm25 {
   v_pending : N;
   v_last : option atype;       (* type of the last advertising PDU handed to the radio *)
   v_cands : list atype;        (* types proposed by change_advertising since that PDU *)
-  v_target : option addr       (* directed_advertising_address *)
+  v_target : option addr;      (* directed_advertising_address *)
+  v_map : N                    (* enabled advertising channels (only to know when the map is empty) *)
 }.
 
-Definition minit25 (c : cfg) : mon25 := mkm25 false 0 None [] None.
-Definition void25 (m : mon25) : mon25 := mkm25 true (v_pending m) (v_last m) (v_cands m) (v_target m).
+Definition minit25 (c : cfg) : mon25 := mkm25 false 0 None [] None 7.
+Definition void25 (m : mon25) : mon25 := mkm25 true (v_pending m) (v_last m) (v_cands m) (v_target m) (v_map m).
 
 Definition in_effect (m : mon25) : list atype :=
   match v_last m with Some t => t :: v_cands m | None => v_cands m end.
@@ -231,13 +233,13 @@ Definition on_sched25 (c : cfg) (m : mon25) (x : sched) : verdict * mon25 :=
   | NoSched => (Ok, m)
   | Sched _ _ code =>
       match type_of_code c code with
-      | Some t => (Ok, mkm25 false (v_pending m + 1) (Some t) [] (v_target m))
+      | Some t => (Ok, mkm25 false (v_pending m + 1) (Some t) [] (v_target m) (v_map m))
       | None => (Bad t_shape, m)
       end
   end.
 
 Definition answer25 (m : mon25) : mon25 :=
-  mkm25 false (v_pending m - 1) (v_last m) (v_cands m) (v_target m).
+  mkm25 false (v_pending m - 1) (v_last m) (v_cands m) (v_target m) (v_map m).
 
 Definition addr_same (a b : addr) : bool :=
   bytes_eqb (abytes a) (abytes b) && Bool.eqb (arandom a) (arandom b).
@@ -246,11 +248,12 @@ Definition mstep25 (c : cfg) (m : mon25) (o : op) (r : out) : verdict * mon25 :=
   if v_void m then (Ok, m)
   else
     match r with
-    | OFault | OBadOp => (Ok, void25 m)     (* preconditions are the business of the C24 monitor *)
+    | OBadOp => (Ok, void25 m)
     | _ =>
       match o, r with
       | Rx p, _ =>
-          if v_pending m =? 0 then (Ok, void25 m)
+          (* outside the documented usage: nothing outstanding, or advertising with an empty map *)
+          if (v_pending m =? 0) || (v_map m =? 0) then (Ok, void25 m)
           else
             let spec t := may_connect_b (c_off c) (c_own c) (c_filter c) (v_target m) t p in
             match r with
@@ -260,8 +263,10 @@ Definition mstep25 (c : cfg) (m : mon25) (o : op) (r : out) : verdict * mon25 :=
             | ORej x =>
                 if existsb (fun t => negb (spec t)) (in_effect m)
                 then on_sched25 c (answer25 m) x else (Bad t_accept_iff, m)
+            | OFault => (Bad t_fault, m)     (* no received PDU may make the code fail *)
             | _ => (Bad t_shape, m)
             end
+      | _, OFault => (Ok, void25 m)          (* the other preconditions are the business of the C24 monitor *)
       | Timeout, OSched x =>
           if v_pending m =? 0 then (Ok, void25 m) else on_sched25 c (answer25 m) x
       | ConnReq p, OBool b =>
@@ -270,12 +275,16 @@ Definition mstep25 (c : cfg) (m : mon25) (o : op) (r : out) : verdict * mon25 :=
           (if Bool.eqb b (request_for_b 3 12 (c_off c) (c_own c) p) then Ok else Bad t_static_iff, m)
       | DAddr a, OSched x =>
           on_sched25 c (mkm25 false (v_pending m) (v_last m) (v_cands m)
-                              (if addr_same a zero_addr then None else Some a)) x
+                              (if addr_same a zero_addr then None else Some a) (v_map m)) x
       | Chg k, OSched NoSched =>
           (Ok, match nth_error (types_of c) k with
-               | Some t => mkm25 false (v_pending m) (v_last m) (v_cands m ++ [t]) (v_target m)
+               | Some t => mkm25 false (v_pending m) (v_last m) (v_cands m ++ [t]) (v_target m) (v_map m)
                | None => m
                end)
+      | AddCh ch, OSched NoSched =>
+          (Ok, mkm25 false (v_pending m) (v_last m) (v_cands m) (v_target m) (N.lor (v_map m) (N.shiftl 1 (ch - 37))))
+      | RmCh ch, OSched NoSched =>
+          (Ok, mkm25 false (v_pending m) (v_last m) (v_cands m) (v_target m) (N.ldiff (v_map m) (N.shiftl 1 (ch - 37))))
       | _, OSched x => on_sched25 c m x
       | _, _ => (Bad t_shape, m)
       end
